@@ -15,6 +15,8 @@ import (
 	"verif/uni"
 )
 
+const sigConstLevel0 = "C06/Mul/constant-scaled-by-two-primes-at-level-0/panic"
+
 const safety = 16 // fixed safety factor on the propagated bound (DESIGN C06); never tuned
 
 // machine is the state of one execution: three ciphertext registers with their models.
@@ -286,6 +288,11 @@ func (m *machine) step(ins instr) int {
 	case "Mul", "MulRelin":
 		x := m.operand(ins.kind, false)
 		relin := ins.op == "MulRelin"
+		if (x.class == "vec" || (x.class == "scalar" && !x.k.isInt)) && a.level-e.k+1 < 0 {
+			// 128-bit mode at level 0: the constant is to be scaled by two primes but only one is left;
+			// the evaluator indexes SubRings[level-1] (panic) instead of returning an error
+			m.defect = sigConstLevel0
+		}
 		err, pan := run2(func(o *rlwe.Ciphertext) error {
 			if relin {
 				return ev.MulRelin(a.ct, x.val, o)
@@ -366,6 +373,9 @@ func (m *machine) step(ins instr) int {
 		s := m.r[1]
 		x := m.operand(ins.kind, true)
 		out = a.ct
+		if (x.class == "vec" || (x.class == "scalar" && !x.k.isInt)) && s.scale.Cmp(a.scale) == 0 && min(a.level, s.level)-e.k+1 < 0 {
+			m.defect = sigConstLevel0
+		}
 		err, pan := m.call(ins, func() error {
 			if relin {
 				return ev.MulRelinThenAdd(s.ct, x.val, a.ct)
